@@ -12,6 +12,7 @@ Definition v3_ok (c : v3c) : Prop :=
 Definition tx_ok (t : tx) : Prop :=
   match t with
   | InvokeV3 _ _ _ c _ _ _ | DeclareV3 _ _ _ c _ _ _ | DeployAccountV3 _ _ _ c _ _ _ => v3_ok c
+  | Unverified _ => False        (* its hash is not a function of its fields: juno does not recompute it *)
   | _ => True
   end.
 
@@ -170,7 +171,7 @@ Theorem tx_hash_injective : forall ch t1 t2, tx_ok t1 -> tx_ok t2 -> tx_hash ch 
 Proof.
   intros ch t1 t2 O1 O2 H.
   destruct consts_distinct as (D1 & D2 & D3 & D4 & D5 & D6).
-  destruct t1, t2;
+  destruct t1, t2; try (simpl in O1, O2; contradiction);
     try (exfalso; simpl in H;
          repeat match goal with
                 | H : context [match ?pf with [] => _ | _ :: _ => _ end] |- _ => destruct pf
